@@ -60,7 +60,7 @@ class VdirStore(Store):
         self._fname_to_uid: dict[str, str] = {}
         # Maps uids to (sha, fname)
         self._uid_to_fname: dict[str, str] = {}
-        cp = configparser.ConfigParser()
+        cp = configparser.ConfigParser(interpolation=None)
         cp.read([os.path.join(self.path, CONFIG_FILENAME)])
 
         def save_config(cp, message):
